@@ -121,6 +121,10 @@ func bitReversePermute(x []complex128) {
 // will panic.
 func SequenceRadix2(coeff []complex128) []complex128 {
 	x := coeff
+	if len(x) != 0 && bits.OnesCount(uint(len(x))) != 1 {
+		// Reject the length before reversing the input.
+		panic("fourier: radix-2 fft called with non-power 2 length")
+	}
 	for i, j := 1, len(x)-1; i < j; i, j = i+1, j-1 {
 		x[i], x[j] = x[j], x[i]
 	}
@@ -271,6 +275,10 @@ func bitPairReversePermute(x []complex128) {
 // will panic.
 func SequenceRadix4(coeff []complex128) []complex128 {
 	x := coeff
+	if len(x) != 0 && (bits.OnesCount(uint(len(x))) != 1 || bits.TrailingZeros(uint(len(x)))&0x1 != 0) {
+		// Reject the length before reversing the input.
+		panic("fourier: radix-4 fft called with non-power 4 length")
+	}
 	for i, j := 1, len(x)-1; i < j; i, j = i+1, j-1 {
 		x[i], x[j] = x[j], x[i]
 	}
